@@ -41,7 +41,7 @@ func propC19(c *Ctx) propInfo {
 	pl := c.mustFn(R, "tonconnect", "Server.CheckPayload")
 	if pl != nil {
 		c.mustDominate(R, pl, 0, []requiredCheck{
-			{name: "subtle.ConstantTimeCompare(mac, computed) == 1", src: callResult("crypto/subtle.ConstantTimeCompare"), kind: "one"},
+			bytesEqualCheck("stored MAC == computed MAC"),
 			{name: "payload expiry comparison", src: func(v ssa.Value) bool {
 				b, ok := v.(*ssa.BinOp)
 				if !ok {
@@ -184,7 +184,7 @@ func (c *Ctx) tonProofLayout() {
 					_, lo, hi := sliceBounds(cl.Call.Args[0])
 					okW = (lo == "" || lo == "0") && hi == "16"
 				}
-				if callQName(&cl.Call) == "crypto/subtle.ConstantTimeCompare" {
+				if q := callQName(&cl.Call); q == "crypto/subtle.ConstantTimeCompare" || q == "crypto/hmac.Equal" || q == "bytes.Equal" {
 					_, lo0, hi0 := sliceBounds(cl.Call.Args[0])
 					_, lo1, hi1 := sliceBounds(cl.Call.Args[1])
 					okCmp = lo0 == "16" && hi0 == "" && (lo1 == "" || lo1 == "0") && hi1 == "16" && derivesFrom(cl.Call.Args[1], func(v ssa.Value) bool {
